@@ -567,6 +567,8 @@ def run_unit1(name, tier, workdir, cfg, extra_defs=(), tag="p", override=None):
     u = load_unit(name)
     if override:
         u.update(override)
+    if isinstance(u["timeout"], dict):      # per-tier time limit
+        u["timeout"] = u["timeout"].get(tier, u["timeout"].get("quick", 300))
     ur = UnitRun(u, tier)
     t0 = time.time()
     try:
@@ -766,6 +768,8 @@ def witness_and_replay1(name, tier, workdir, cfg, failed, pid, extra_defs=(), ta
     u = load_unit(name)
     if override:
         u.update(override)
+    if isinstance(u["timeout"], dict):
+        u["timeout"] = u["timeout"].get(tier, u["timeout"].get("quick", 300))
     outs = []
     wres = None
     wbin = None
